@@ -1,11 +1,127 @@
 /-
-  C11 — Search-space enumeration is exact. Property theorems only.
+  C11 — Search-space enumeration is exact: every valid DNA once, nothing else.
+  Property theorems only (model: PgModel/Geno/{Spec,Enum,Valid}.lean; lemmas: PgProofs/Geno*.lean).
+
+  Vocabulary: `g.all` is the SPECIFICATION of the enumeration (`allValid`: lexicographic, by
+  structural recursion, PgModel/Geno/Valid.lean), `Valid g d` the specification of membership;
+  `g.first / g.next / g.iter / g.size / g.validate / g.bind / g.random` are the implementation
+  model (PgModel/Geno/Enum.lean). `succIn l d` is the element following `d` in `l`.
+
+  Staging (DESIGN §6 C11): each clause is stated in full as `def …_Full : Prop`; what is proved is
+  the `…_partial` theorem with the explicit decidable exclusion `g.noMulti` (no `num_choices > 1`
+  anywhere). For multi-choices the same equalities (`g.iter = g.all`, `g.size = |g.all|`) are
+  checked by the driver on every enumerated spec of the correspondence run, including the
+  exhaustive small-scope family — labelled as such in the evidence, not claimed as theorems.
 -/
-import PgModel.Geno.Spec
-import PgModel.Geno.Enum
-import PgModel.Geno.Valid
+import PgProofs.GenoIter
 namespace Pg.Geno
 
-theorem C11_placeholder : (Spec.space []).all = [DNA.mk .none []] := by decide
+/-! ### Full statements -/
+
+/-- `first_dna()` is the least member. -/
+def C11_first_Full : Prop :=
+  ∀ g : Spec, g.finite = true → g.wf = true → g.all.head? = some g.first
+
+/-- `next_dna(d)` is the successor of `d` in the enumeration of all members (`None` after the
+last one), and never raises on a member. -/
+def C11_next_Full : Prop :=
+  ∀ g : Spec, g.finite = true → g.wf = true → ∀ d ∈ g.all, g.next d = some (succIn g.all d)
+
+/-- `list(iter_dna())` is exactly the enumeration of all members and ends by itself. -/
+def C11_iter_Full : Prop :=
+  ∀ g : Spec, g.finite = true → g.wf = true →
+    ∀ fuel, g.all.length < fuel → g.iter fuel = some (g.all, true)
+
+/-- `space_size` is the number of members. -/
+def C11_size_Full : Prop :=
+  ∀ g : Spec, g.finite = true → g.wf = true → g.size = some g.all.length
+
+/-- Binding accepts exactly the members. -/
+def C11_bind_Full : Prop :=
+  ∀ (g : Spec) (d : DNA), g.wf = true → (g.bind d = true ↔ Valid g d)
+
+/-! ### Proved: specs without multi-choices (spaces, single choices, conditional sub-spaces of any
+depth and width) -/
+
+theorem C11_first_partial (g : Spec) (hf : g.finite = true) (hw : g.wf = true) (hm : g.noMulti = true) :
+    g.all.head? = some g.first :=
+  (specOk g hf hw hm).head
+
+/-- The odometer lemma: right-to-left search for the right-most advanceable position equals the
+recursive successor. -/
+theorem C11_next_partial (g : Spec) (hf : g.finite = true) (hw : g.wf = true) (hm : g.noMulti = true) :
+    ∀ d ∈ g.all, g.next d = some (succIn g.all d) :=
+  (specOk g hf hw hm).next
+
+/-- The enumeration of all members has no duplicates. -/
+theorem C11_all_nodup_partial (g : Spec) (hf : g.finite = true) (hw : g.wf = true) (hm : g.noMulti = true) :
+    g.all.Nodup :=
+  (specOk g hf hw hm).nodup
+
+/-- Iteration yields exactly the members, each once, in the order of the specification, and
+then stops: with any fuel above the number of members the result is `(g.all, ended = true)`. -/
+theorem C11_iter_partial (g : Spec) (hf : g.finite = true) (hw : g.wf = true) (hm : g.noMulti = true)
+    (fuel : Nat) (hfuel : g.all.length < fuel) : g.iter fuel = some (g.all, true) :=
+  iter_eq_all (specOk g hf hw hm) fuel hfuel
+
+/-- The counting recurrences (sum over candidates, product over elements) are correct. -/
+theorem C11_size_partial (g : Spec) (hf : g.finite = true) (hw : g.wf = true) (hm : g.noMulti = true) :
+    g.size = some g.all.length :=
+  size_eq g hf hw hm
+
+/-- Hence: iteration yields exactly `space_size` DNAs, pairwise different, and ends with no
+successor. -/
+theorem C11_iter_count_partial (g : Spec) (hf : g.finite = true) (hw : g.wf = true) (hm : g.noMulti = true) :
+    ∃ n l, g.size = some n ∧ g.iter (n + 1) = some (l, true) ∧ l.length = n ∧ l.Nodup ∧ l = g.all :=
+  ⟨g.all.length, g.all, C11_size_partial g hf hw hm,
+   C11_iter_partial g hf hw hm _ (Nat.lt_succ_self _), rfl, C11_all_nodup_partial g hf hw hm, rfl⟩
+
+/-- The Sweeping generator proposes the same sequence as `iter_dna` (for every spec: it is the
+same loop over `next_dna`). -/
+theorem C11_sweep (g : Spec) (fuel : Nat) : sweepRun g fuel none = g.iter fuel := by
+  have h : ∀ f d, sweepRun g f (some d) = iterFrom g f d := by
+    intro f
+    induction f with
+    | zero => intro d; rfl
+    | succ f ih =>
+      intro d
+      simp only [sweepRun, sweepPropose, iterFrom]
+      cases g.next d with
+      | none => rfl
+      | some o =>
+        cases o with
+        | none => rfl
+        | some d' => simp [ih d']
+  cases fuel with
+  | zero => rfl
+  | succ f => simp [sweepRun, sweepPropose, Spec.iter, h]
+
+/-! ### Known defect F20c: binding a float ignores the children of the node -/
+
+theorem C11_bind_counterexample : ¬ C11_bind_Full := by
+  intro h
+  have := h (.point (.float 0 1 1 1 {})) (.mk (.flt 1 2) [.mk (.int 0) []]) (by decide)
+  revert this
+  decide
+
+/-! ### Non-vacuity and instances -/
+
+/-- A spec with a conditional sub-space that satisfies the hypotheses of the partial theorems. -/
+def exampleSpec : Spec :=
+  .space [.choices 1 [[], [.choices 1 [[], []] true false {}, .choices 1 [[], [], []] true false {}]] true false {},
+          .choices 1 [[], []] true false {}]
+
+example : exampleSpec.finite = true ∧ exampleSpec.wf = true ∧ exampleSpec.noMulti = true := by decide
+example : exampleSpec.all.length = 14 := by decide
+example : exampleSpec.iter 15 = some (exampleSpec.all, true) := by decide
+
+/-- Instances of the full statements on multi-choices (all four `distinct × sorted` modes, with a
+conditional candidate): evidence that the staged statements are the right ones, not a proof. -/
+def exampleMulti (d s : Bool) : Spec :=
+  .point (.choices 2 [[], [.choices 1 [[], []] true false {}], []] d s {})
+
+example : ∀ d s, (exampleMulti d s).iter 40 = some ((exampleMulti d s).all, true) := by decide
+example : ∀ d s, (exampleMulti d s).size = some (exampleMulti d s).all.length := by decide
+example : (exampleMulti true true).all.length = 5 ∧ (exampleMulti false false).all.length = 16 := by decide
 
 end Pg.Geno
